@@ -68,7 +68,7 @@ def judge_case(col: common.Collector, ll: codecrun.LoadedLayer, msg: Dict[str, A
     if k2 == "skip" or kind == "skip":
         col.count("not-judged:skip")
         return
-    if k2 == "mismatch" and "NRC" in str(dec):
+    if k2 == "mismatch-nrc":
         # which NRC values a negative response admits is a matching question (C06); a VALUE
         # parameter laid over the NRC-CONST may carry any byte as far as this property goes
         col.count("not-judged:nrc-const-overlaid")
